@@ -619,6 +619,9 @@ class Randomizer(RandIF):
             # Make sure no field keeps a handle into this call's solver 
             # instances, whatever way the solve ended
             for rs in ri.randsets():
+                # (also reaches what the constraints refer to without it being 
+                # a field of the set, e.g. the size of a list referenced as a whole)
+                RandSetDisposeVisitor().dispose(rs)
                 for f in rs.all_fields():
                     f.dispose()
                     # A call that fails leaves the rand sets it did not reach 
